@@ -680,9 +680,15 @@ public:
       throw std::out_of_range("offset too large");
     }
     if (end_offset > this->data.size()) {
+      // v may refer into this writer's own buffer, which resize() can
+      // reallocate, so take a copy of it first
+      T v_copy = v;
       this->data.resize(end_offset, '\0');
+      memcpy(this->data.data() + offset, &v_copy, sizeof(v_copy));
+    } else {
+      // v may overlap the destination if it refers into this writer's buffer
+      memmove(this->data.data() + offset, &v, sizeof(v));
     }
-    memcpy(this->data.data() + offset, &v, sizeof(v));
   }
 
   inline void put_u8(uint8_t v) { this->put<uint8_t>(v); }
